@@ -68,12 +68,15 @@ def host_configs(draw):
     return out
 
 
-def build_host(cfgs):
+def build_host(cfgs, auto_index=False):
     """-> (a's dictionary, [peer dictionaries])"""
     a_dict = {}
     peers = []
     for j, cfg in enumerate(cfgs):
         ca, cb = gen.build(cfg)
+        if auto_index:
+            for p_ in ca['conn']['protect']:
+                p_.pop('index', None)          # the daemon picks a random index per entry
         a_dict[f'conn{j}'] = ca['conn']
         peers.append(cb)
     return a_dict, peers
@@ -107,6 +110,27 @@ def expected_policies(cfg):
         out.append({'dir': 0, 'index': 0, 'sel': sel(peer, my, pp, mp), 'tmpl': tm_in})
         out.append({'dir': 2, 'index': 0, 'sel': sel(peer, my, pp, mp), 'tmpl': tm_in})
     return out
+
+
+def adopt_indices(ep, cfgs, fails):
+    """entries were configured without index: read the index the daemon chose from the out policy it installed (matched by
+    selector) into the case, after checking that the choices are pairwise distinct"""
+    seen = {}
+    for cfg in cfgs:
+        for e in cfg['protect']:
+            want = [p for p in expected_policies(cfg) if p['dir'] == 1 and p['index'] == e['index_a'] * 8 + 1][0]
+            got = [p for p in ep.kernel.spd if p['dir'] == 1 and p['sel'] == want['sel']]
+            if len(got) != 1:
+                fails.append(Failure('auto-index-policy-missing', 'no out policy with the selectors of an entry configured without index'))
+                continue
+            idx = got[0]['index']
+            if idx % 8 != 1:
+                fails.append(Failure('auto-index-encoding', f'out policy index {idx} is not entry index * 8 + 1'))
+            if idx in seen:
+                fails.append(Failure('auto-index-not-distinct', f'two protect entries configured without index share the policy index '
+                                                               f'{idx}: an ACQUIRE cannot be mapped back to one of them'))
+            seen[idx] = True
+            e['index_a'] = idx >> 3
 
 
 def spd_view(kernel):
@@ -189,8 +213,11 @@ def run_case(case):
         stale.sad[(f'10.9.9.{i}', 50, '%08x' % (i + 1))] = {'stale': True}
         stale.spd.append({'sel': {'stale': i}, 'dir': i % 3, 'index': 8 * i + 1, 'action': 0, 'tmpls': [], 'priority': 0,
                           'flags': 0, 'share': 0, 'lft': {}})
-    a_dict, peer_dicts = build_host(cfgs)
+    auto_index = bool(case.get('auto_index'))
+    a_dict, peer_dicts = build_host(cfgs, auto_index)
     a = w.add('a', [cfgs[0]['addr_a']], a_dict, kernel=stale)
+    if auto_index:
+        adopt_indices(a, cfgs, fails)
     peers = [w.add(f'b{j}', [cfg['addr_b']], peer_dicts[j]) for j, cfg in enumerate(cfgs)]
     check_startup(a, cfgs, 0, fails, 'first start')
     for j, p in enumerate(peers):
@@ -235,6 +262,8 @@ def run_case(case):
         elif k == 'restart':
             since = len(a.kernel.log)
             a.restart()
+            if auto_index:
+                adopt_indices(a, cfgs, fails)
             w.inflight.clear()
             for p in peers:                 # peers forget the old IKE_SAs as well (a fresh start of the scenario)
                 p.restart()
@@ -402,7 +431,7 @@ def body(case, stats):
     fails, info = run_case(case)
     cfgs = case['cfgs']
     shape = [len(c['protect']) for c in cfgs]
-    kl = [f'connections:{len(cfgs)}', f'entries:{sum(shape)}', 'outer:' + ('v6' if ':' in cfgs[0]['addr_a'] else 'v4')]
+    kl = [f'connections:{len(cfgs)}', f'entries:{sum(shape)}', 'index:' + ('chosen-by-daemon' if case.get('auto_index') else 'explicit'), 'outer:' + ('v6' if ':' in cfgs[0]['addr_a'] else 'v4')]
     for k in ('acquires', 'reused', 'restarts', 'unknown', 'rekeys', 'in_rekey'):
         if info.get(k):
             kl.append('saw:' + k)
@@ -431,7 +460,7 @@ def cases(draw):
     rekey = st.builds(lambda j, by_peer, n: ['rekey', j, by_peer, n], st.integers(0, 2), st.booleans(), st.integers(0, 3))
     ops = draw(st.lists(st.one_of(acq, acq, acq, rekey, st.just(['flush']), st.just(['restart']),
                                   st.builds(lambda i: ['deliver', i], st.integers(0, 2))), min_size=1, max_size=10))
-    return {'cfgs': cfgs, 'stale': draw(st.integers(0, 4)), 'ops': ops, 'close': True}
+    return {'cfgs': cfgs, 'stale': draw(st.integers(0, 4)), 'ops': ops, 'close': True, 'auto_index': draw(st.integers(0, 3)) == 0}
 
 
 def worker(task):
